@@ -7,7 +7,8 @@ func init() {
 	vRegister("H_C06_sign", H_C06_sign)
 	vRegister("H_C06_signature", H_C06_signature)
 	vRegister("H_C06_headers", H_C06_headers)
-	vRegister("H_C06_key", H_C06_key)
+	vRegister("HT_C06_key", HT_C06_key)
+	vRegister("H_C06_key_faulted", H_C06_key_faulted)
 	vRegister("H_C06_hashenv", H_C06_hashenv)
 	vRegister("H_C06_garbage", H_C06_garbage)
 }
@@ -180,11 +181,19 @@ func mkKeyTree(name string, maxPairs int) *vNodeT {
 	for i := 0; i < n; i++ {
 		nm := name + "." + vItoa(i)
 		var k *vNodeT
-		switch vChoose(nm+".lk", 3) {
+		lk := vChoose(nm+".lk", 3)
+		if i == 0 && vTier() == 0 {
+			// quick: the first pair is the key type (without kty the decoder stops at once)
+			vAssume(lk == 0)
+		}
+		switch lk {
 		case 0: // small integer labels: 1..5 and -1..-4 are the interesting ones
 			sign := vChoose(nm+".ls", 2)
 			mag := vUint64(nm + ".lm")
 			vAssume(mag <= 6)
+			if i == 0 && vTier() == 0 {
+				vAssume(vAnd(sign == 0, mag == 1))
+			}
 			k = nnInt(sign, mag, vWidth(nm+".lw", mag))
 		case 1:
 			sign := vChoose(nm+".ls", 2)
@@ -219,7 +228,7 @@ func c06KeyFollowups(k *Key) {
 	}
 	if v, err := k.Verifier(); err == nil {
 		v.Algorithm()
-		v.Verify(vBlob("fu.vcontent"), vBlobN("fu.vsig", 0, 140))
+		v.Verify(vBlob("fu.vcontent"), vBlobN("fu.vsig", 64, 64))
 	}
 	k.EC2()
 	k.OKP()
@@ -231,12 +240,8 @@ func c06KeyFollowups(k *Key) {
 	k.ParamBool(int64(-1))
 }
 
-func H_C06_key() {
-	maxPairs := 2
-	if vTier() == 1 {
-		maxPairs = 4
-	}
-	wire := vSer(mkKeyTree("k", maxPairs))
+func HT_C06_key() {
+	wire := vSer(mkKeyTree("k", 2))
 	if vChoose("trailing", 2) == 1 {
 		wire = append(wire, vBlobN("trail", 1, 4)...)
 	}
@@ -287,5 +292,100 @@ func H_C06_garbage() {
 	e8 = k.UnmarshalCBOR(g)
 	_, e9 := VerifyHashEnvelope(&spyVerifier{}, g)
 	vAssert("garbage is refused by every decoder", e1 != nil && e2 != nil && e3 != nil && e4 != nil && e5 != nil && e6 != nil && e7 != nil && e8 != nil && e9 != nil)
+	vReach("end")
+}
+
+// mkConfKeyTree: a well-formed EC2 / OKP / Symmetric COSE_Key with optional
+// common parameters. One dimension varies at a time (one-hot): either one
+// coordinate gets an unusual length, or the curve is arbitrary, or (with a
+// fault budget) one label / value is replaced by an arbitrary item.
+func mkConfKeyTree(name string, fp *faultPlan) *vNodeT {
+	var pairs []*vNodeT
+	add := func(sign int, mag uint64, val func() *vNodeT) {
+		idx := vItoa(len(pairs) / 2)
+		k := fp.node(name+".key"+idx, func() *vNodeT { return nnInt(sign, mag, vWidth(name+".kw"+idx, mag)) })
+		v := fp.node(name+".val"+idx, val)
+		pairs = append(pairs, k, v)
+	}
+	vary := 0
+	if fp.budget == 0 {
+		vary = vChoose(name+".vary", 5) // 0 none, 1 x, 2 y, 3 d, 4 curve value
+	}
+	oddLen := 0
+	if vary >= 1 && vary <= 3 {
+		oddLen = []int{0, 1, 31, 33, 47, 49, 65, 67}[vChoose(name+".oddlen", 8)]
+	}
+	bs := func(s string, n int, which int) func() *vNodeT {
+		return func() *vNodeT {
+			if vary == which {
+				n = oddLen
+			}
+			b := vBlobN(name+"."+s, n, n)
+			return nnBstr(b, vWidth(name+"."+s+".w", uint64(len(b))))
+		}
+	}
+	u := func(v uint64) func() *vNodeT { return func() *vNodeT { return nnInt(0, v, -1) } }
+	crvNode := func(c uint64) func() *vNodeT {
+		return func() *vNodeT {
+			if vary == 4 {
+				x := vUint64(name + ".crv")
+				return nnInt(vChoose(name+".crvsign", 2), x, vWidth(name+".crvw", x))
+			}
+			return nnInt(0, c, -1)
+		}
+	}
+	kty := vChoose(name+".kty", 5)
+	switch kty {
+	case 0, 1, 2: // EC2 P-256 / P-384 / P-521
+		size := []int{32, 48, 66}[kty]
+		add(0, 1, u(2))
+		add(1, 0, crvNode(uint64(kty+1)))
+		add(1, 1, bs("x", size, 1))
+		add(1, 2, bs("y", size, 2))
+		if vChoose(name+".priv", 2) == 1 {
+			add(1, 3, bs("d", size, 3))
+		}
+	case 3: // OKP Ed25519
+		add(0, 1, u(1))
+		add(1, 0, crvNode(6))
+		add(1, 1, bs("x", 32, 1))
+		if vChoose(name+".priv", 2) == 1 {
+			add(1, 3, bs("d", 32, 3))
+		}
+	case 4: // Symmetric
+		add(0, 1, u(4))
+		add(1, 0, bs("k", 16, 1))
+	}
+	common := vChoose(name+".common", 5)
+	if fp.budget > 0 && vTier() == 0 {
+		vAssume(common == 0 || common == 3) // quick: faults on the bare key and on key_ops
+	}
+	switch common {
+	case 1:
+		add(0, 2, bs("kid", 5, -1))
+	case 2:
+		mag := vUint64(name + ".alg")
+		vAssume(mag <= 1<<63-1)
+		add(0, 3, func() *vNodeT { return nnInt(1, mag, vWidth(name+".algw", mag)) })
+	case 3:
+		add(0, 4, func() *vNodeT {
+			x := vUint64(name + ".op")
+			vAssume(x <= 1<<63-1)
+			return nnArray([]*vNodeT{nnInt(0, x, -1), nnTstr("verify", -1)}, -1)
+		})
+	case 4:
+		add(0, 5, bs("biv", 8, -1))
+	}
+	return nnMap(pairs, vWidth(name+".mw", uint64(len(pairs)/2)))
+}
+
+func H_C06_key_faulted() {
+	fp := mkFaultPlan(vChoose("budget", c05Budget()+1))
+	wire, _ := c05Wire(mkConfKeyTree("k", fp), fp)
+	var k Key
+	if k.UnmarshalCBOR(wire) == nil {
+		c06KeyFollowups(&k)
+		vReach("accepted")
+	}
 	vReach("end")
 }
